@@ -282,7 +282,12 @@ class Spoiler(Operator):
     """Perfect spoiler: destroy transverse magnetization"""
 
     def _apply(self, sm):
-        sm.states[..., 0:2] = 0
+        states = sm.states
+        if not states.flags.writeable:
+            # broadcast view of the stored states: materialise it
+            states = states.copy()
+        states[..., 0:2] = 0
+        sm.states = states
         return sm
 
 
